@@ -214,5 +214,19 @@ impl State {
 //@use corewords.fns State::load_core#w_remove_tag
 //@use corewords.fns State::load_core#w_get_tag
 
+//@use corewords.fns State::load_core#w_equal_q
+
+//@use corewords.fns State::load_core#w_nil_q
+
+//@use corewords.fns State::load_core#w_assert_eq
+
+//@use corewords.fns State::load_core#w_concat
+
+//@use corewords.fns State::load_core#w_join
+
+//@use corewords.fns State::load_core#w_unbox
+
+//@use corewords.fns State::load_core#w_slice
+
 } // verus!
 fn main() {}
